@@ -57,7 +57,10 @@ def parse_hand_text(text: str) -> Optional[frozenset]:
         return None
     out = set()
     for suit, grp in zip('SHDC', m.groups()):
-        for tok in grp.split():
+        toks = grp.split()
+        if not toks or ('-' in toks and toks != ['-']):
+            return None          # the protocol writes a void as "-": an empty holding (or "-" next to ranks) is not a hand
+        for tok in toks:
             if tok == '-':
                 continue
             t = tok.upper()
